@@ -8,10 +8,12 @@ import (
 	"fmt"
 	"math/big"
 	"net"
+	"os"
 	"sort"
 	"strings"
 	"sync"
 	"sync/atomic"
+	"syscall"
 	"time"
 
 	"github.com/anacrolix/torrent/bencode"
@@ -67,6 +69,16 @@ func (c *fakeConn) WriteTo(b []byte, addr net.Addr) (int, error) {
 	c.nwrites++
 	if c.failNth[c.nwrites] {
 		c.mu.Unlock()
+		// the kind of failure varies: an opaque error, and socket errors that look transient
+		// (a failed write is a failed send whatever the errno)
+		switch c.nwrites % 4 {
+		case 1:
+			return 0, &net.OpError{Op: "write", Net: "udp", Err: os.NewSyscallError("sendto", syscall.ENOBUFS)}
+		case 2:
+			return 0, &net.OpError{Op: "write", Net: "udp", Err: os.NewSyscallError("sendto", syscall.EAGAIN)}
+		case 3:
+			return 0, &net.OpError{Op: "write", Net: "udp", Err: os.ErrDeadlineExceeded}
+		}
 		return 0, fmt.Errorf("injected write failure")
 	}
 	ua, _ := addr.(*net.UDPAddr)
